@@ -36,10 +36,17 @@ MANIFEST = {
             "check_solution pipeline) is tied to the code by generated tables and exact differential correspondence (stack, alt stack, op "
             "count, errno), and proved to refine the specification (Props/C03.lean, C03_model_*): conditional counters = vfExec for every op "
             "sequence; IntStreamer = CScriptNum; get_opcode = GetScriptOp + CheckMinimalPush for every script and pc; check_valid_signature = IsValidSignatureEncoding, hash-type and public-key encoding checks = Core's predicates, for every byte string; eval_instruction = one "
-            "iteration of Core's loop for every state and every opcode outside the CHECKSIG family; eval_script = EvalScript (verdict and "
-            "final stack) for every script without CHECKSIG-family instructions.",
+            "iteration of Core's loop for every state and ALL 256 opcode values incl. CHECKSIG/CHECKSIGVERIFY/CHECKMULTISIG/CHECKMULTISIGVERIFY "
+            "(sigdecode_der_lax = Core's lax parser; parse_and_check_signature_blob = CheckSignatureEncoding; checksigs = Core's matching loop "
+            "for all m <= n by induction on the signature and key lists; NULLDUMMY, NULLFAIL, op-count contribution of the key count; "
+            "_delete_signature = FindAndDelete on every script code); eval_script = EvalScript (verdict and final "
+            "stack) for EVERY script, decodable or not, on stacks of items within 520 bytes (C03_model_eval_eq); check_solution = VerifyScript "
+            "for every scriptSig, scriptPubKey, witness, flag set, tx context with no hypothesis but ChkWF (C03_model_verify_eq: SIGPUSHONLY, "
+            "P2SH, witness v0 rules, 520-byte items, malleation rules, upgradable versions, CLEANSTACK, WITNESS_UNEXPECTED).",
     "note": "The signature check inside the spec is a parameter answered by a sig-oracle computed by the implementation's sighash and ECDSA "
-            "(properties C04/C01); Core itself is not available offline, the spec is validated, not verified.",
+            "(properties C04/C01); Core itself is not available offline, the spec is validated, not verified. The refinement theorems ask of "
+            "the shared checker only ChkWF (the early exits of Core's CheckSig: C03_model_chk_wf_core); the older "
+            "C03_model_step_eq_partial / C03_model_eval_eq_partial (CHECKSIG family excluded) are kept.",
     "technique": "Lean 4 executable specification + proof of refinement (Props/C03) + differential check implementation vs specification",
 }
 RULE = ("ops vm_* (model of pycoin's VM vs the real VM, error codes compared: harness/props/c03m.py); ops spec_eval (BitcoinVM.eval_script: verdict and final stack) and spec_verify (Tx.check_solution: verdict); deterministic table + "
